@@ -241,3 +241,29 @@ Proof.
     + apply flat_write_inside; lia.
     + apply flat_write_outside; lia.
 Qed.
+
+(* histories read byte by byte: last writer wins *)
+Lemma flat_write_many_bytes ws : forall mem i,
+  Forall (fun w => 0 <= fst w /\ fst w + zlen (snd w) <= zlen mem) ws ->
+  nth_error (flat_write_many mem ws) i = byte_after ws (nth_error mem i) i.
+Proof.
+  induction ws as [|[a d] ws IH]; intros mem i Hall; [reflexivity|].
+  inversion Hall as [|w ws' [Ha He] Hrest]; subst. cbn [fst snd] in *.
+  cbn [flat_write_many byte_after].
+  pose proof (flat_write_length mem a d Ha He) as L.
+  rewrite IH by (rewrite L; exact Hrest). f_equal.
+  destruct ((Z.to_nat a <=? i) && (i <? Z.to_nat a + length d))%nat eqn:B.
+  - apply flat_write_inside; lia.
+  - apply flat_write_outside; lia.
+Qed.
+
+Lemma write_many_bytes ws st :
+  wf_regions st ->
+  Forall (fun w => 0 <= fst w /\ fst w + zlen (snd w) <= data_end) ws ->
+  exists st', write_many st ws = Ok st' /\ wf_regions st' /\
+    forall i, nth_error (flat st') i = byte_after ws (nth_error (flat st) i) i.
+Proof.
+  intros Hwf Hall. destruct (write_many_ok ws st Hwf Hall) as (st' & E & W & F).
+  exists st'. split; [exact E|]. split; [exact W|]. intros i. rewrite F.
+  apply flat_write_many_bytes. rewrite (wf_regions_flat_len st Hwf). exact Hall.
+Qed.
